@@ -143,7 +143,11 @@ func c19Exec(t *testing.T, scn c19Scenario, ch *mc.Chooser) (rec c19Rec, machine
 		off := aofS0
 		for i, ki := range scn.Keys {
 			raw := redisd.EncodeCommandS("SET", c19Keys[0], "unused")
-			if ki < 0 {
+			if ki == -2 {
+				// a multi-key command on two keys of one slot: while that slot migrates and only one
+				// of the keys has moved, its owner answers TRYAGAIN
+				raw = redisd.EncodeCommandS("DEL", c19Keys[0], c19Keys[1])
+			} else if ki < 0 {
 				// a multi-key command whose keys live on different nodes: not routable as one
 				// command; the replay must report it, not drop it (or its batch) silently
 				raw = redisd.EncodeCommandS("DEL", c19Keys[0], c19Keys[2])
@@ -168,6 +172,10 @@ func c19Exec(t *testing.T, scn c19Scenario, ch *mc.Chooser) (rec c19Rec, machine
 		applyTopo := func(step string) {
 			slot := c19SlotOf(0)
 			switch step {
+			case "Pa", "Pb":
+				// the key exists on its owner before the replay starts
+				k := c19Keys[int(step[1]-'a')]
+				cl.Nodes[cl.Owner(ref.HashSlotS(k))].Put(0, k, &redisd.Value{T: 's', Str: []byte("preloaded")})
 			case "M":
 				cl.SetMigrating(slot, 2)
 			case "Ka":
@@ -464,36 +472,74 @@ func oracleC19(scn c19Scenario, rec *c19Rec) mc.Result {
 		if r.Executed && r.Name() == "set" && len(r.Argv) == 3 && !isBisyncKey(r.Argv[1]) {
 			exec = append(exec, r)
 		}
+		if r.Executed && r.Name() == "del" && !isBisyncKey(r.Argv[1]) {
+			exec = append(exec, r)
+		}
 	}
 	sort.SliceStable(exec, func(i, j int) bool { return exec[i].ExecStamp < exec[j].ExecStamp })
-	// per key: positions of executed values
+	// per key: the source's writes in order ("v<i>" = SET at stream position i, "D<i>" = the one-slot DEL)
 	perKeySrc := map[string][]string{}
+	delTok := ""
 	for i, ki := range scn.Keys {
+		if ki == -2 {
+			delTok = fmt.Sprintf("D%d", i)
+			perKeySrc[c19Keys[0]] = append(perKeySrc[c19Keys[0]], delTok)
+			perKeySrc[c19Keys[1]] = append(perKeySrc[c19Keys[1]], delTok)
+			continue
+		}
 		if ki < 0 {
 			continue
 		}
 		k := c19Keys[ki]
 		perKeySrc[k] = append(perKeySrc[k], fmt.Sprintf("v%d", i))
 	}
+	tryAgainSeen := false
+	for _, r := range rec.Log {
+		if strings.HasPrefix(r.Reply, "-TRYAGAIN") {
+			tryAgainSeen = true
+		}
+	}
 	last := map[string]int{}
 	counts := map[string]int{}
+	var orderViolation *mc.Result
 	for _, r := range exec {
-		k, v := string(r.Argv[1]), string(r.Argv[2])
-		src := perKeySrc[k]
-		p := -1
-		for i, sv := range src {
-			if sv == v {
-				p = i + 1
+		type eff struct{ k, v string }
+		var effs []eff
+		if r.Name() == "set" {
+			effs = append(effs, eff{string(r.Argv[1]), string(r.Argv[2])})
+		} else {
+			if delTok == "" {
+				continue // the cross-node DEL of the other families is judged by its report only
+			}
+			for _, a := range r.Argv[1:] {
+				effs = append(effs, eff{string(a), delTok})
 			}
 		}
-		if p < 0 {
-			return mc.Violation("the cluster executed a write that is not in the source stream", "C19:invented:"+cls, describe())
+		for _, e := range effs {
+			src := perKeySrc[e.k]
+			p := -1
+			for i, sv := range src {
+				if sv == e.v {
+					p = i + 1
+				}
+			}
+			if p < 0 {
+				return mc.Violation("the cluster executed a write that is not in the source stream", "C19:invented:"+cls, describe())
+			}
+			counts[e.k+"="+e.v]++
+			if p > last[e.k]+1 && orderViolation == nil {
+				sig := fmt.Sprintf("C19:key-order:%s", cls)
+				if tryAgainSeen {
+					sig += ":after-tryagain"
+				}
+				v := mc.Violation("per-key order broken: a write took effect before an earlier write of the same key (skip/inversion)", sig, describe())
+				orderViolation = &v
+				if !tryAgainSeen {
+					return v
+				}
+			}
+			last[e.k] = p
 		}
-		counts[k+"="+v]++
-		if p > last[k]+1 {
-			return mc.Violation("per-key order broken: a write took effect before an earlier write of the same key (skip/inversion)", fmt.Sprintf("C19:key-order:%s", cls), describe())
-		}
-		last[k] = p
 	}
 	if rec.Healthy {
 		for k, src := range perKeySrc {
@@ -502,6 +548,10 @@ func oracleC19(scn c19Scenario, rec *c19Rec) mc.Result {
 					map[string]interface{}{"key": k, "last_executed_position": last[k], "source_writes": src, "history": describe()})
 			}
 		}
+	}
+	if orderViolation != nil {
+		// (histories with a TRYAGAIN answer are judged on their final state first: a lasting loss is the graver finding)
+		return *orderViolation
 	}
 	if scn.Cfg.Txn {
 		// no write twice within one run
@@ -512,7 +562,7 @@ func oracleC19(scn c19Scenario, rec *c19Rec) mc.Result {
 			}
 			cnt := map[string]int{}
 			for _, r := range exec {
-				if r.Stamp > st && r.Stamp <= end {
+				if r.Stamp > st && r.Stamp <= end && r.Name() == "set" {
 					kv := string(r.Argv[1]) + "=" + string(r.Argv[2])
 					cnt[kv]++
 					if cnt[kv] > 1 {
@@ -597,11 +647,12 @@ func runC19(t *testing.T, rep *mc.Reporter) {
 		bound = 3
 	}
 	idx := 0
+	fam := os.Getenv("VERIF_FAMILY") // parts: "retry" = only the in-run retry family (C02 includes it)
 	for _, st := range streams {
 		for _, tp := range topos {
 			for _, cfg := range cfgs {
 				idx++
-				if idx%nshards != shard || budget.Expired() {
+				if idx%nshards != shard || budget.Expired() || fam != "" {
 					continue
 				}
 				keys := st
@@ -639,11 +690,40 @@ func runC19(t *testing.T, rep *mc.Reporter) {
 			{Txn: false, Resume: true, Pipeline: true, Count: 2, Bytes: 1 << 20, DbMode: "id"},
 		} {
 			idx++
-			if idx%nshards != shard || budget.Expired() {
+			if idx%nshards != shard || budget.Expired() || (fam != "" && fam != "retry") {
 				continue
 			}
 			scn := c19Scenario{Keys: st, Cfg: cfg, Init: []string{"M", "Mw"}, Topo: []string{"K2"}, Sleep: true, Defer: true}
 			mc.RunScenario(rep, scn, retryBound, budget, func(ch *mc.Chooser) mc.Result { return exec(scn, ch) })
+		}
+	}
+	// ---- family "tryagain": the slot of {t} is migrating and only one of its two keys has moved when the
+	// replay starts; the stream carries a DEL of both keys (answered TRYAGAIN by the owner) followed by a
+	// write of the key that is still there, in one flush; the rest of the migration is placed by the explorer
+	{
+		tb := 2
+		tstreams := [][]int{{-2, 1}, {-2, 1, 0}, {1, -2, 1}}
+		ttopos := [][]string{{"Kb"}, {"F"}, {"Kb", "F"}, nil}
+		if tier == "thorough" {
+			tb = 3
+			tstreams = append(tstreams, []int{-2, 0, 1}, []int{0, -2, 1, 1})
+			ttopos = append(ttopos, []string{"O"})
+		}
+		for _, st := range tstreams {
+			for _, tp := range ttopos {
+				for _, cfg := range []aofCfg{
+					{Txn: false, Resume: true, Pipeline: false, Count: 2, Bytes: 1 << 20, DbMode: "id"},
+					{Txn: false, Resume: true, Pipeline: true, Count: 2, Bytes: 1 << 20, DbMode: "id"},
+					{Txn: false, Resume: true, Pipeline: false, Count: 64, Bytes: 1 << 20, DbMode: "id"},
+				} {
+					idx++
+					if idx%nshards != shard || budget.Expired() || (fam != "" && fam != "tryagain") {
+						continue
+					}
+					scn := c19Scenario{Keys: st, Cfg: cfg, Init: []string{"Pa", "Pb", "M", "Ka"}, Topo: tp, Sleep: true}
+					mc.RunScenario(rep, scn, tb, budget, func(ch *mc.Chooser) mc.Result { return exec(scn, ch) })
+				}
+			}
 		}
 	}
 	// ---- family "long": one flush carrying far more commands for one node than any constant in the
@@ -661,7 +741,7 @@ func runC19(t *testing.T, rep *mc.Reporter) {
 			{Txn: false, Resume: true, Pipeline: true, Count: 70, Bytes: 1 << 20, DbMode: "id"},
 		} {
 			idx++
-			if idx%nshards != shard || budget.Expired() {
+			if idx%nshards != shard || budget.Expired() || fam != "" {
 				continue
 			}
 			scn := c19Scenario{Keys: long, Cfg: cfg}
@@ -686,7 +766,7 @@ func runC19(t *testing.T, rep *mc.Reporter) {
 					continue
 				}
 				idx++
-				if idx%nshards != shard || budget.Expired() {
+				if idx%nshards != shard || budget.Expired() || fam != "" {
 					continue
 				}
 				scn := c19Scenario{Keys: st, Cfg: cfg, Init: in, Preempt: true}
